@@ -72,6 +72,15 @@ theorem tree_source_readable : Gen.unreadable = [] := by decide
     connection's next `process_connection`, where each frame meets the gate again. -/
 theorem tree_deferral_understood : Gen.deferral = "absent" ∨ Gen.deferral = "blocked-only" := by decide
 
+/-- Commands executed indirectly (inside EXEC) are handed a literal connection id instead of the issuer's; every such
+    id lies below the first id the accept loop hands out, so it never names a live connection
+    (`exec_auth_affects_nobody`).  Fails if ids start at 0 while the substitute id is 0. -/
+theorem tree_substitute_ids_not_live : ∀ i ∈ Gen.substituteConnIds, i < Gen.connIdStart := by decide
+
+/-- The command line's password overrides the configuration file's only when one is given; the file's `requirepass`,
+    the two command-line flags and the order file-then-command-line have the shape the model assumes. -/
+theorem tree_password_sources : Gen.cliPasswordRule = "if-given" ∧ Gen.passwordSourcesUnderstood = true := by decide
+
 /-- The prescribed inclusion fails for the pinned order of processing: SYNC is handled before the gate and is
     not one of AUTH / PING / QUIT. -/
 theorem preGate_subset_allow_fails_pinned : ¬ ∀ n ∈ Cfg.pinned.preGate, n ∈ Spec.harmless := by decide
@@ -225,6 +234,46 @@ theorem unauthenticated_frame_changes_nothing (cfg : Cfg) (hk : cfg.allowKnown =
     (hno : isExactAuth cfg pw req = false) :
     (Code.processConnectionFrame cfg h s c req).1 = s :=
   (unauth_frame_harmless cfg hk h s c req pw hpw hst hpre).2.2 hno
+
+/-- `handle_auth` called with an id that names no live connection — the substitute id of execution inside EXEC —
+    changes nothing, whatever the password: `MULTI; AUTH pw; EXEC` of one connection authenticates nobody else. -/
+theorem exec_auth_affects_nobody (s : Server D) (start i : Nat) (args : List Arg)
+    (hids : ∀ x ∈ s.conns, start ≤ x.id) (hi : i < start) :
+    (Code.auth s i args : Server D × Reply D R).1 = s := by
+  have hnone := stateOf_below_start s.conns start i hids hi
+  rcases auth_cases (R := R) s i args with ⟨_, _, _, _, he⟩ | ⟨_, he⟩
+  · rw [he]; simp [setState_absent _ _ _ hnone]
+  · rw [he]
+
+/-- … and it DOES change something as soon as a live connection has that id (ids starting at the substitute id):
+    connection 0, which never sent AUTH, is authenticated by somebody else's `handle_auth(parts, 0)`. -/
+theorem exec_auth_promotes_live_substitute_id :
+    stateOf (Code.auth (R := Unit) ({ witnessServer with conns := [⟨0, .connected⟩, ⟨1, .authenticated⟩] }) 0 [some [112]]).1.conns 0
+      = some .authenticated := by decide
+
+/-! ### The password is in force however it was configured -/
+
+/-- A server given a password by ANY supported means — command line (`--requirepass` / `--password`), configuration
+    file (`requirepass` line), or both — runs with one: the command line's last value if there is one, else the
+    file's last.  (With the password in force, everything above applies.) -/
+theorem password_configured_by_any_means (cli file : List Bytes) :
+    Code.effectivePassword .ifGiven cli file = Spec.configuredPassword cli file ∧
+    ((cli ≠ [] ∨ file ≠ []) → (Code.effectivePassword .ifGiven cli file).isSome = true) := by
+  refine ⟨rfl, ?_⟩
+  intro h
+  unfold Code.effectivePassword
+  cases hc : cli.getLast? with
+  | some p => rfl
+  | none =>
+    have hcli : cli = [] := by simpa using hc
+    have hf : file ≠ [] := by rcases h with h | h; exact absurd hcli h; exact h
+    cases hfl : file.getLast? with
+    | some p => rfl
+    | none => exact absurd (by simpa using hfl) hf
+
+/-- Witness: assigning the command line's `Option` unconditionally wipes a password that only the file gives. -/
+theorem cli_always_rule_wipes_file_password :
+    Code.effectivePassword .always [] [[112]] = none ∧ Spec.configuredPassword [] [[112]] = some [112] := by decide
 
 /-! ### Allowed commands are harmless -/
 
